@@ -130,6 +130,8 @@ theorem applyRule_via {h : HMap} {r : Rule} (hr : ruleAvoidsVia r = true) (hv : 
     split
     · exact ⟨hv, rfl⟩
     · rename_i vs _
+      split
+      case isFalse => exact ⟨hv, rfl⟩
       refine ⟨(hv.put n vs (fun hc => absurd hc hl)).sublist (C16.erase_sublist _ _), ?_⟩
       show (HMap.erase (HMap.put h n vs) (canonicalKey n)).lookup viaName = h.lookup viaName
       rw [lookup_erase_ne _ hn, C16.lookup_put_ne h vs hn']
